@@ -37,6 +37,7 @@ MAP = [
     ("V:opt:energy_surface:", "optimiser_contract"),
     ("V:opt:build:", "optimiser_contract"),
     ("P:serde-plain:", "serde_roundtrip"),
+    ("V:cli:", "cli_pipeline"),
 ]
 
 
